@@ -303,6 +303,8 @@ theorem flat_launch {N : Nat} {c : Cfg} (h : PInv N c) {m : QEv} (hm : m ∈ c.e
       obtain ⟨e, he, _⟩ := hcov 0 (Nat.le_refl _) (by omega)
       exact List.ne_nil_of_mem (List.mem_map.mpr ⟨e, he, rfl⟩)
     · exact hD.nodiv
+    · exact hD.nofail
+    · exact hD.nodead
   · -- the engine's memory: nothing is registered, nothing is unacknowledged
     have hue : uEv news = [] := by
       simp only [uEv, List.map_eq_nil_iff, List.filter_eq_nil_iff]
@@ -356,7 +358,7 @@ theorem flat_launch {N : Nat} {c : Cfg} (h : PInv N c) {m : QEv} (hm : m ∈ c.e
       show f.jid < c.nextJ + 1
       omega
   · -- the join: a fresh record
-    refine ⟨by simp, by simp, ?_, by simp, by simp, by simp, by simp, by simp, by simp [heldE], by simp [heldR], ?_⟩
+    refine ⟨by simp, by simp, ?_, by simp, by simp, by simp, by simp, by simp, by simp [heldE], by simp [heldR], ?_, by simp⟩
     rotate_left
     · intro h0
       rw [hevk _ rfl] at h0
